@@ -383,6 +383,91 @@ def anonymize_line(an, line):
     return anonymize_as_numbers(an, line)
 
 
+FS_LINES = ["router bgp 65001", " neighbor peer1 remote-as 65001", " bgp confederation peers 12 65001 64512",
+            "route-map RM-65001-IN permit 12", "ip as-path access-list 12 permit _65001_", "AS65001 x12 y 165001 12",
+            "65001", "\t12\t", "bgp asnotation dot 1.65001 65001.12"]
+
+
+class FeatureSubsets(Part):
+    name = "with_every_other_feature"
+    desc = "AS-number lines (no address, secret or word in them) x every subset of the other features incl. undo x entry points: same replacement everywhere"
+
+    def __init__(self, tier, seed):
+        self.tier, self.seed = tier, seed
+
+    def cases(self):
+        out = []
+        for pwd in (False, True):
+            for ip in ("off", "anonymize", "undo"):
+                for word in (False, True):
+                    for entry in ("FileAnonymizer", "anonymize_files", "main"):
+                        out.append({"pwd": pwd, "ip": ip, "word": word, "entry": entry})
+        return out
+
+    def run(self, case):
+        import io
+        import os
+        import shutil
+
+        from netconan.anonymize_files import FileAnonymizer, anonymize_files
+
+        res = Res()
+        lst, salt = ["65001", "12", "64512"], "saltForTest"
+        rep = {n: make([n], salt).anonymize(n) for n in lst}
+        text = "".join(l + "\n" for l in FS_LINES)
+        kw = dict(anon_pwd=case["pwd"], anon_ip=case["ip"] == "anonymize", undo_ip_anon=case["ip"] == "undo",
+                  salt=salt, as_numbers=list(lst), sensitive_words=["zzzword"] if case["word"] else None)
+        root = None
+        try:
+            with seams.capture_logs():
+                if case["entry"] == "FileAnonymizer":
+                    out = io.StringIO()
+                    FileAnonymizer(**kw).anonymize_io(io.StringIO(text, newline=""), out)
+                    got = out.getvalue()
+                else:
+                    root = seams.scratch_dir("c11f")
+                    with open(os.path.join(root, "in.cfg"), "w", newline="") as f:
+                        f.write(text)
+                    if case["entry"] == "anonymize_files":
+                        anonymize_files(os.path.join(root, "in.cfg"), os.path.join(root, "out.cfg"), **kw)
+                    else:
+                        from netconan.netconan import main
+
+                        argv = ["-i", os.path.join(root, "in.cfg"), "-o", os.path.join(root, "out.cfg"), "-s", salt,
+                                "-n", ",".join(lst)]
+                        argv += ["-p"] if case["pwd"] else []
+                        argv += {"off": [], "anonymize": ["-a"], "undo": ["-u"]}[case["ip"]]
+                        argv += ["-w", "zzzword"] if case["word"] else []
+                        with seams.capture_stdio():
+                            main(argv)
+                    with open(os.path.join(root, "out.cfg"), newline="") as f:
+                        got = f.read()
+        finally:
+            if root:
+                shutil.rmtree(root, ignore_errors=True)
+        got = got.split("\n")[:-1]
+        if len(got) != len(FS_LINES):
+            res.violation("line-count", "%d vs %d" % (len(got), len(FS_LINES)), case)
+            return res
+        for ln, g in zip(FS_LINES, got):
+            res.evals += 1
+            exp = expected(ln, set(lst), rep)
+            # the secret / word stages may collapse inner whitespace (C12)
+            if case["pwd"] or case["word"]:
+                norm = lambda x: x[: len(x) - len(x.lstrip())] + " ".join(x.split()) + x[len(x.rstrip()):]
+                g, exp = norm(g), norm(exp)
+            if exp != ln:
+                res.nt((case["entry"], case["pwd"], case["ip"], case["word"], ln))
+            res.out(g)
+            if g != exp:
+                res.violation("as-replacement-depends-on-other-features|%s" % (
+                    "listed-number-not-replaced" if g == ln else "other"),
+                    "%s pwd=%s ip=%s words=%s: %r -> %r, expected %r" % (
+                        case["entry"], case["pwd"], case["ip"], case["word"], ln, g, exp), case)
+        res.samples.append(case)
+        return res
+
+
 def parts(tier, seed):
     return [RangePart(tier, seed), RealMd5Part(tier, seed), TokenPart(tier, seed), InstancesPart(tier, seed),
-            GeneratedSaltPart(tier, seed), CollisionPart(tier, seed)]
+            GeneratedSaltPart(tier, seed), CollisionPart(tier, seed), FeatureSubsets(tier, seed)]
